@@ -37,8 +37,18 @@ meta = {"name": a.name, "property": a.property, "repo_head": subprocess.check_ou
 ok = True
 try:
     patch = os.path.join(a.src, "patch.diff")
-    demos = [f for f in glob.glob(os.path.join(a.src, "*")) if f.endswith("_test.go") or (f.endswith(".go") and "demo" in os.path.basename(f))]
+    demos = [f for f in glob.glob(os.path.join(a.src, "*")) if f.endswith("_test.go") or f.endswith("_test.go.txt") or (f.endswith(".go") and "demo" in os.path.basename(f))]
     demo_dir = a.demo_dir
+    old_meta = {}
+    if os.path.exists(os.path.join(a.src, "meta.json")):
+        old_meta = json.load(open(os.path.join(a.src, "meta.json")))
+        demo_dir = demo_dir or old_meta.get("demo_dir", "")
+        a.demo_flags = a.demo_flags or old_meta.get("demo_flags", "")
+        a.needs = a.needs or old_meta.get("needs", "")
+        meta["needs"] = a.needs
+        for k in ("superseded", "valid_on_head"):
+            if k in old_meta:
+                meta[k] = old_meta[k]
     if not demo_dir:
         notes = open(os.path.join(a.src, "notes.md")).read() if os.path.exists(os.path.join(a.src, "notes.md")) else ""
         for cand in ["internal/server", "internal/parser", "internal/include", "internal/workspace", "internal/formatter", "internal/analyzer", "internal/lsputil"]:
@@ -50,7 +60,10 @@ try:
             return None, "no demonstration test found"
         copied = []
         for d in demos:
-            dst = os.path.join(wt, demo_dir, "zz_seed_" + os.path.basename(d))
+            bn = os.path.basename(d)
+            if bn.endswith(".txt"):
+                bn = bn[:-4]
+            dst = os.path.join(wt, demo_dir, "zz_seed_" + bn)
             shutil.copy(d, dst); copied.append(dst)
         rc, out = sh("go test -count=1 %s -run 'Demo|Seed|demo|seed|.' ./%s/ 2>&1 | tail -40" % (a.demo_flags, demo_dir), wt)
         # determine pass/fail from go test output
@@ -99,11 +112,13 @@ try:
     if a.keep and ok:
         dst = os.path.join("/verif/seeded", a.name)
         os.makedirs(dst, exist_ok=True)
-        shutil.copy(patch, os.path.join(dst, "patch.diff"))
-        for d in demos:
-            shutil.copy(d, os.path.join(dst, os.path.basename(d) + ".txt"))  # .txt: not compiled by anything under /verif
-        if os.path.exists(os.path.join(a.src, "notes.md")):
-            shutil.copy(os.path.join(a.src, "notes.md"), os.path.join(dst, "notes.md"))
+        if os.path.abspath(dst) != os.path.abspath(a.src):
+            shutil.copy(patch, os.path.join(dst, "patch.diff"))
+            for d in demos:
+                bn = os.path.basename(d)
+                shutil.copy(d, os.path.join(dst, bn if bn.endswith(".txt") else bn + ".txt"))  # .txt: not compiled by anything under /verif
+            if os.path.exists(os.path.join(a.src, "notes.md")):
+                shutil.copy(os.path.join(a.src, "notes.md"), os.path.join(dst, "notes.md"))
         meta["demo_dir"] = demo_dir
         meta["demo_flags"] = a.demo_flags
         json.dump(meta, open(os.path.join(dst, "meta.json"), "w"), indent=1)
